@@ -1,8 +1,13 @@
 """C12 — one tracker per tree, self-healing (control logic only)."""
 from ..ech import H
 
-LEVEL = "other"
+LEVEL = "model_checking"
+ENGINE = "E-CH+E-TS"
 EXPLANATION = (
+    "E-TS slice x9: two threads run the real ensure_running (compiled from the AST) after the tracker may have been "
+    "killed, against a kernel model (pipes, tracker processes, waitpid, spawn): for every interleaving the pipe of a live "
+    "tracker is never closed, exactly one tracker is started per death, no descriptor is closed twice or left open, "
+    "nobody blocks; traces replayed on the real method. "
     "Bounded symbolic execution (CrossHair/z3) of the real ResourceTracker.ensure_running over symbolic sequences "
     "of <=3 calls (tracker alive or dead, spawn succeeds or raises, reaping fails or not) against a fake kernel "
     "(descriptor table, signal mask), of the real spawn.get_preparation_data -> spawn.prepare round trip with "
@@ -19,6 +24,7 @@ M = "lokyverif.harness.c12_tracker_ctl"
 def units(tier):
     t = 900 if tier == "thorough" else 300
     return [
+        ("lokyverif.ets.units_exec", "slice_unit", dict(prop="C12", name="slice.tracker_race", builder="x9_tracker_race", K=40, timeout_s=1200)),
         H("C12", M, "check_ensure_running", t, ["loky.backend.resource_tracker:ResourceTracker.ensure_running"],
           "<=3 consecutive calls; alive/spawn_ok/reap_fails symbolic per call"),
         H("C12", M, "check_identity_inherited", t, ["loky.backend.spawn:get_preparation_data", "loky.backend.spawn:prepare"],
